@@ -93,6 +93,8 @@ def oracle(log, rc=0, stderr=""):
             if kvs.get("errno") == "0":
                 if o and o["reg"]:
                     o["need"] = n
+                    if o.get("wneed") is None:
+                        o["wneed"] = n
                     o["nok"] += 1
             elif kvs.get("errno") == "EAGAIN":
                 if o and o["reg"]:
@@ -103,6 +105,20 @@ def oracle(log, rc=0, stderr=""):
             return ("blocking-descriptor", f"line {n}: a post would block")
         elif rec == "BLOCKED-READ":
             return ("blocking-descriptor", f"line {n}: the owner's drain of {w[2]} would block (read end without O_NONBLOCK, nothing to read)")
+        elif rec == "WAIT":
+            for o in objs.values():
+                if o["reg"] and o["owner"] == t and o.get("wneed") is not None:
+                    o["armed"] = True
+        elif rec == "WRET" and w[2].startswith("n=") and not w[2].startswith("n=-"):
+            # a kernel poll that was ENTERED after the post's write completed, and returned (not interrupted): the descriptor is
+            # readable the whole time, so the very first such poll reports it; ten of them without the handler = the owner's loop
+            # does not watch the descriptor (any more)
+            for i, o in objs.items():
+                if o["reg"] and o["owner"] == t and o.get("wneed") is not None and o.get("armed"):
+                    o["polls"] = o.get("polls", 0) + 1
+                    if o["polls"] >= 10:
+                        return ("lost-post", f"line {n}: {i} (owner {t}): a post whose write completed at line {o['wneed']} was not followed by the handler "
+                                             f"although the owner has since entered and completed 10 kernel polls")
         elif rec == "DISP":
             disp[w[2]] = [int(w[3].split("=")[1]), False]
         elif rec == "CB" and w[2].startswith("r"):
@@ -114,6 +130,7 @@ def oracle(log, rc=0, stderr=""):
                 return ("wrong-thread", f"line {n}: handler of {i} runs in {t}, registered by {o['owner']}")
             o["ncb"] += 1
             o["need"] = None
+            o["armed"] = False; o["polls"] = 0; o["wneed"] = None
             if i in disp:
                 disp[i][1] = True
                 if disp[i][0] == 0:
@@ -298,6 +315,47 @@ def gen_regfail(rng):
     return lines, "none"
 
 
+def rgs(n, k):
+    """restricted growth strings of length n over at most k letters (sequences up to renaming of the objects)"""
+    out = [[0]]
+    for _ in range(n - 1):
+        out = [s + [c] for s in out for c in range(min(max(s) + 1, k - 1) + 1)]
+    return out
+
+
+def regorder_cases(tier):
+    """Enumerated: every order (up to renaming) of 5 (thorough: 4-6) register/unregister toggles on three raw events of one thread,
+    made before iv_main or from a timer handler inside it, under every poll method; afterwards every object that is registered is
+    posted by its owner and by another thread and must be called.  Reaches back-end bookkeeping that depends on the ORDER in which
+    descriptors came and went (slots moved on removal, re-used slot numbers), which random scenarios with 1-3 objects seldom produce."""
+    cases = []
+    for n in ([5] if tier == "quick" else [4, 5, 6]):
+        for idx, seq in enumerate(rgs(n, 3)):
+            regd, toggles = set(), []
+            for o in seq:
+                r = o + 1
+                if r in regd:
+                    regd.discard(r); toggles.append(f"rawunreg r{r}")
+                else:
+                    regd.add(r); toggles += [f"rawreg r{r}", f"rawflags r{r}"]
+            if not regd:
+                continue
+            posts = [f"rawpost r{r}" for r in sorted(regd)]
+            for ex in EXCLUDES:
+                for inside in ([idx % 2] if tier == "quick" else [0, 1]):
+                    lines = [f"cfg seed={1 + idx} stay=55 {{T}}", ex or "exclude", "thread 0", "obj raw r1", "obj raw r2", "obj raw r3", "obj timer t0", "obj timer t1"]
+                    if inside:
+                        lines += ["do trel t0 100", "main", "on t0 1 : " + " ; ".join(toggles + ["trel t1 1000"] + posts[-1:])]
+                    else:
+                        lines += ["do " + " ; ".join(toggles + ["trel t1 1000"] + posts[:1]), "main"]
+                    lines.append("on t1 1 : " + " ; ".join(posts))
+                    lines += [f"on r{r} 2 : rawunreg r{r}" for r in sorted(regd)]
+                    lines += ["thread 1", "do yield ; yield ; " + " ; yield ; ".join(posts), "idle 0 : clk 2000", "idle 1 : clk 2000"]
+                    name = "regorder-" + "".join(str(o + 1) for o in seq) + "-" + (ex.replace("exclude ", "no-").replace(" ", "+") or "all") + ("-inside" if inside else "")
+                    cases.append((name, "regorder", lines, "none"))
+    return cases
+
+
 def gen_pingpong(rng):
     """at most one post in flight per object at any time: no coalescing is possible, so the callback sequence must
     be IDENTICAL in the three transports and under every poll method"""
@@ -329,6 +387,8 @@ def gen_cases(tier, seed, search=False):
             rng = random.Random(s)
             lines, cmp_mode = gen_pingpong(rng) if fam == "pingpong" else gen_regfail(rng) if fam == "regfail" else gen_random(rng, fam)
             yield (f"{fam}-{s}", fam, lines, cmp_mode)
+    if not search:
+        yield from regorder_cases(tier)
     if not search:
         # systematic schedule enumeration (vlib/sched.py) on a few small multi-thread scenarios; the schedules are found on the
         # eventfd2 instantiation and then run, like every case, in all three transports
